@@ -385,8 +385,49 @@ func genPlanC10(t *rapid.T) Plan {
 		return op
 	}
 	p.Auth = rapid.IntRange(0, 2).Draw(t, "auth") == 0
+	hoardAt := -1
+	if rapid.IntRange(0, 5).Draw(t, "hoard") == 0 {
+		hoardAt = rapid.IntRange(0, nops-1).Draw(t, "hoardat")
+	}
 	for i := 0; i < nops; i++ {
 		c := rapid.IntRange(0, p.NClients-1).Draw(t, "c")
+		if i == hoardAt {
+			// hoard: one persistent session collects 20-48 filters, drops most of them in a generated
+			// order, touches a few survivors, and is resumed; then messages for dropped and kept filters
+			persist[c] = true
+			p.Ops = append(p.Ops, Op{K: "close", C: c}, Op{K: "connect", C: c, Clean: false})
+			n := rapid.IntRange(20, 48).Draw(t, "hoardn")
+			var held []int
+			for k := 0; k < n; {
+				op := Op{K: "sub", C: c}
+				for j, m := 0, rapid.IntRange(1, 10).Draw(t, "hoardpk"); j < m && k < n; j, k = j+1, k+1 {
+					op.Filters = append(op.Filters, fmt.Sprintf("h/%d", k))
+					op.QoS = append(op.QoS, byte(rapid.IntRange(0, 2).Draw(t, "hq")))
+					held = append(held, k)
+				}
+				p.Ops = append(p.Ops, op)
+			}
+			for d, m := 0, rapid.IntRange(n/2, n-1).Draw(t, "hoarddrop"); d < m && len(held) > 1; d++ {
+				x := rapid.IntRange(0, len(held)-1).Draw(t, "hoarddropi")
+				p.Ops = append(p.Ops, Op{K: "unsub", C: c, Filters: []string{fmt.Sprintf("h/%d", held[x])}})
+				held = append(held[:x:x], held[x+1:]...)
+			}
+			for j, m := 0, rapid.IntRange(1, 3).Draw(t, "hoardtouch"); j < m && len(held) > 0; j++ {
+				x := rapid.IntRange(0, len(held)-1).Draw(t, "hoardtouchi")
+				if rapid.Bool().Draw(t, "hoardtouchunsub") && len(held) > 1 {
+					p.Ops = append(p.Ops, Op{K: "unsub", C: c, Filters: []string{fmt.Sprintf("h/%d", held[x])}})
+					held = append(held[:x:x], held[x+1:]...)
+				} else {
+					p.Ops = append(p.Ops, Op{K: "sub", C: c, Filters: []string{fmt.Sprintf("h/%d", held[x])}, QoS: []byte{byte(rapid.IntRange(0, 2).Draw(t, "hq2"))}})
+				}
+			}
+			p.Ops = append(p.Ops, Op{K: rapid.SampledFrom([]string{"disconnect", "close"}).Draw(t, "hoardend"), C: c}, Op{K: "connect", C: c, Clean: false})
+			pc := rapid.IntRange(0, p.NClients-1).Draw(t, "hoardpc")
+			for j, m := 0, rapid.IntRange(6, 16).Draw(t, "hoardpubs"); j < m; j++ {
+				p.Ops = append(p.Ops, Op{K: "pub", C: pc, Topic: fmt.Sprintf("h/%d", rapid.IntRange(0, n-1).Draw(t, "hoardpt")), PQ: byte(rapid.IntRange(0, 2).Draw(t, "hpq")), Size: 8})
+			}
+			continue
+		}
 		switch k := rapid.IntRange(0, 19).Draw(t, "opkind"); {
 		case k < 5: // reconnect: end the connection in some way, connect again
 			p.Ops = append(p.Ops, Op{K: rapid.SampledFrom([]string{"disconnect", "close", "close", "garbage"}).Draw(t, "end"), C: c}, connect(c))
